@@ -36,7 +36,24 @@
      is one, else reads the device and caches what it read.
    * a description variant in which TLParamsLocked is declared with <pValue> AND <pValueCopy>
      ([n_copy]): PValue::set_value writes the pValue node, then every copy, each with `?`
-     (genapi/src/ivalue.rs), so the TLParamsLocked step of start / stop is two device writes. *)
+     (genapi/src/ivalue.rs), so the TLParamsLocked step of start / stop is two device writes.
+   * descriptions in which the two commands carry <pIsAvailable> backed by device registers (call code
+     49): CommandNode::execute (cameleon/src/genapi/node_kind.rs `delegate!`, genapi/src/command.rs)
+     does NOT consult the access mode of the node, it evaluates the CommandValue and writes it through
+     <pValue>; the availability registers are never read by start / stop / close, so such a
+     description behaves exactly like the conforming one whatever the device does to those registers
+     (the environment step [CPoke] on words 4 / 5 of the device memory);
+   * a description that keeps TLParamsLocked on the HOST side ([h_tl c = Some b]: an <Integer> with an
+     immediate <Value>, a slot of the context's value store holding b): IntegerNode::set_value updates
+     the slot (effect [HostTL b], no device access, cannot fail), a params access reads it; the slot
+     belongs to the description: it is created with the context and is not touched by clear_cache;
+   * descriptions whose AcquisitionStop has <CommandValue>0</CommandValue> ([n_stop0]): the command
+     values are constants of the description (nothing the camera or a params write of ANOTHER node does
+     changes them); the value is printed with the effect ([eff_code]);
+   * [CUser v]: a params write of a further host-side variable (UserVar): no device access, no
+     effect on anything the camera does.
+   [tl_feat s] is the value TLParamsLocked was given last, through its register or as a host-side
+   variable (what the protocol calls "TLParamsLocked"); [tl_locked s] stays the device register. *)
 From Cam Require Export Outcome CameraProto.
 
 (* error classes (numbers = rust/h_camera eclass) *)
@@ -55,20 +72,23 @@ Definition E_CTRL_INVALID_DATA : Z := 105.
    register values are cached (TLParamsLocked: the cached value). *)
 Record ctx := { n_tl : bool; n_start : bool; n_stop : bool;
                 n_copy : bool;                 (* TLParamsLocked has a <pValueCopy> *)
+                n_stop0 : bool;                (* AcquisitionStop's CommandValue is 0 (else 1) *)
                 c_tl : option bool; c_start : bool; c_stop : bool;
                 c_copy : bool;                 (* a value of the mirror register is cached *)
-                c_bank : Z -> option Z         (* cached value of each bank slot *) }.
+                c_bank : Z -> option Z;        (* cached value of each bank slot *)
+                h_tl : option bool             (* TLParamsLocked is a host-side variable holding this *) }.
 
 Record cam := { opened_ctrl : bool; opened_strm : bool; ctxt : option ctx;
                 stream_enabled : bool; tl_locked : bool; acquiring : bool;
                 loop_running : bool;
                 tl_copy : bool;                (* device: the mirror register of TLParamsLocked *)
-                bank : Z -> Z                  (* device: the memory of the register bank *) }.
+                bank : Z -> Z;                 (* device: the memory of the register bank *)
+                tl_feat : bool                 (* the value TLParamsLocked was given last (register or variable) *) }.
 
 Definition cam0 : cam :=
   {| opened_ctrl := false; opened_strm := false; ctxt := None; stream_enabled := false;
      tl_locked := false; acquiring := false; loop_running := false;
-     tl_copy := false; bank := fun _ => 0 |}.
+     tl_copy := false; bank := fun _ => 0; tl_feat := false |}.
 
 Definition ctxt_loaded (s : cam) : bool := match ctxt s with Some _ => true | None => false end.
 Definition cache_nonempty (s : cam) : bool :=
@@ -84,7 +104,7 @@ Definition bank_cache (s : cam) (k : Z) : option Z :=
 (* the device view of the state *)
 Definition dev_of (s : cam) : dev :=
   {| d_copen := opened_ctrl s; d_sopen := opened_strm s; d_enabled := stream_enabled s;
-     d_locked := tl_locked s; d_acq := acquiring s; d_alive := loop_running s;
+     d_locked := tl_feat s; d_acq := acquiring s; d_alive := loop_running s;
      d_copy := tl_copy s |}.
 
 (* error a failing operation surfaces as, seen by the caller of the Camera method:
@@ -95,7 +115,7 @@ Definition err_base (e : effect) : Z :=
   | CtrlOpen | CtrlClose | GenApiFetch | EnableStreaming | DisableStreaming => E_CTRL
   | StrmOpen | StrmClose | LoopStart | LoopStop => E_STRM
   | SetTLParamsLocked _ | AcqStart | AcqStop | GenApiRead | CopyTL _ | BankRead _ => E_GENAPI_DEVICE
-  | LoadCtxt _ _ _ _ | ClearCache | BankPoke _ _ => 0
+  | LoadCtxt _ _ _ _ _ _ | ClearCache | BankPoke _ _ | HostTL _ => 0
   end.
 (* the fault is passed on unchanged: same class, wrapped by the layer it went through *)
 Definition err_of (e : effect) (cls : Z) : Z := err_base e + cls.
@@ -104,95 +124,104 @@ Arguments err_of : simpl never.
 Definition upd_ctx (f : ctx -> ctx) (s : cam) : cam :=
   {| opened_ctrl := opened_ctrl s; opened_strm := opened_strm s; ctxt := match ctxt s with Some c => Some (f c) | None => None end;
      stream_enabled := stream_enabled s; tl_locked := tl_locked s; acquiring := acquiring s; loop_running := loop_running s;
-     tl_copy := tl_copy s; bank := bank s |}.
+     tl_copy := tl_copy s; bank := bank s; tl_feat := tl_feat s |}.
 
 (* state change of a successful step *)
 Definition apply_eff (e : effect) (s : cam) : cam :=
   match e with
   | CtrlOpen => {| opened_ctrl := true; opened_strm := opened_strm s; ctxt := ctxt s;
                   stream_enabled := stream_enabled s; tl_locked := tl_locked s; acquiring := acquiring s; loop_running := loop_running s;
-                  tl_copy := tl_copy s; bank := bank s |}
+                  tl_copy := tl_copy s; bank := bank s; tl_feat := tl_feat s |}
   | CtrlClose => {| opened_ctrl := false; opened_strm := opened_strm s; ctxt := ctxt s;
                    stream_enabled := stream_enabled s; tl_locked := tl_locked s; acquiring := acquiring s; loop_running := loop_running s;
-                   tl_copy := tl_copy s; bank := bank s |}
+                   tl_copy := tl_copy s; bank := bank s; tl_feat := tl_feat s |}
   | StrmOpen => {| opened_ctrl := opened_ctrl s; opened_strm := true; ctxt := ctxt s;
                   stream_enabled := stream_enabled s; tl_locked := tl_locked s; acquiring := acquiring s; loop_running := loop_running s;
-                  tl_copy := tl_copy s; bank := bank s |}
+                  tl_copy := tl_copy s; bank := bank s; tl_feat := tl_feat s |}
   | StrmClose => {| opened_ctrl := opened_ctrl s; opened_strm := false; ctxt := ctxt s;
                    stream_enabled := stream_enabled s; tl_locked := tl_locked s; acquiring := acquiring s; loop_running := loop_running s;
-                   tl_copy := tl_copy s; bank := bank s |}
+                   tl_copy := tl_copy s; bank := bank s; tl_feat := tl_feat s |}
   | GenApiFetch => s
   | EnableStreaming => {| opened_ctrl := opened_ctrl s; opened_strm := opened_strm s; ctxt := ctxt s;
                          stream_enabled := true; tl_locked := tl_locked s; acquiring := acquiring s; loop_running := loop_running s;
-                         tl_copy := tl_copy s; bank := bank s |}
+                         tl_copy := tl_copy s; bank := bank s; tl_feat := tl_feat s |}
   | DisableStreaming => {| opened_ctrl := opened_ctrl s; opened_strm := opened_strm s; ctxt := ctxt s;
                           stream_enabled := false; tl_locked := tl_locked s; acquiring := acquiring s; loop_running := loop_running s;
-                          tl_copy := tl_copy s; bank := bank s |}
+                          tl_copy := tl_copy s; bank := bank s; tl_feat := tl_feat s |}
   | SetTLParamsLocked b =>
       (* IntReg::set_value: ctrl.write, then the written bytes are cached (WriteThrough) *)
-      upd_ctx (fun c => {| n_tl := n_tl c; n_start := n_start c; n_stop := n_stop c; n_copy := n_copy c;
+      upd_ctx (fun c => {| n_tl := n_tl c; n_start := n_start c; n_stop := n_stop c; n_copy := n_copy c; n_stop0 := n_stop0 c;
                           c_tl := Some b; c_start := c_start c; c_stop := c_stop c; c_copy := c_copy c;
-                          c_bank := c_bank c |})
+                          c_bank := c_bank c; h_tl := h_tl c |})
         {| opened_ctrl := opened_ctrl s; opened_strm := opened_strm s; ctxt := ctxt s;
            stream_enabled := stream_enabled s; tl_locked := b; acquiring := acquiring s; loop_running := loop_running s;
-           tl_copy := tl_copy s; bank := bank s |}
-  | CopyTL b =>
-      (* the same for the register <pValueCopy> refers to *)
-      upd_ctx (fun c => {| n_tl := n_tl c; n_start := n_start c; n_stop := n_stop c; n_copy := n_copy c;
-                          c_tl := c_tl c; c_start := c_start c; c_stop := c_stop c; c_copy := true;
-                          c_bank := c_bank c |})
+           tl_copy := tl_copy s; bank := bank s; tl_feat := b |}
+  | HostTL b =>
+      (* IntegerNode::set_value on an immediate <Value>: cx.value_store_mut().update(vid, b) *)
+      upd_ctx (fun c => {| n_tl := n_tl c; n_start := n_start c; n_stop := n_stop c; n_copy := n_copy c; n_stop0 := n_stop0 c;
+                          c_tl := c_tl c; c_start := c_start c; c_stop := c_stop c; c_copy := c_copy c;
+                          c_bank := c_bank c; h_tl := Some b |})
         {| opened_ctrl := opened_ctrl s; opened_strm := opened_strm s; ctxt := ctxt s;
            stream_enabled := stream_enabled s; tl_locked := tl_locked s; acquiring := acquiring s; loop_running := loop_running s;
-           tl_copy := b; bank := bank s |}
+           tl_copy := tl_copy s; bank := bank s; tl_feat := b |}
+  | CopyTL b =>
+      (* the same for the register <pValueCopy> refers to *)
+      upd_ctx (fun c => {| n_tl := n_tl c; n_start := n_start c; n_stop := n_stop c; n_copy := n_copy c; n_stop0 := n_stop0 c;
+                          c_tl := c_tl c; c_start := c_start c; c_stop := c_stop c; c_copy := true;
+                          c_bank := c_bank c; h_tl := h_tl c |})
+        {| opened_ctrl := opened_ctrl s; opened_strm := opened_strm s; ctxt := ctxt s;
+           stream_enabled := stream_enabled s; tl_locked := tl_locked s; acquiring := acquiring s; loop_running := loop_running s;
+           tl_copy := b; bank := bank s; tl_feat := tl_feat s |}
   | AcqStart =>
-      upd_ctx (fun c => {| n_tl := n_tl c; n_start := n_start c; n_stop := n_stop c; n_copy := n_copy c;
+      upd_ctx (fun c => {| n_tl := n_tl c; n_start := n_start c; n_stop := n_stop c; n_copy := n_copy c; n_stop0 := n_stop0 c;
                           c_tl := c_tl c; c_start := true; c_stop := c_stop c; c_copy := c_copy c;
-                          c_bank := c_bank c |})
+                          c_bank := c_bank c; h_tl := h_tl c |})
         {| opened_ctrl := opened_ctrl s; opened_strm := opened_strm s; ctxt := ctxt s;
            stream_enabled := stream_enabled s; tl_locked := tl_locked s; acquiring := true; loop_running := loop_running s;
-           tl_copy := tl_copy s; bank := bank s |}
+           tl_copy := tl_copy s; bank := bank s; tl_feat := tl_feat s |}
   | AcqStop =>
-      upd_ctx (fun c => {| n_tl := n_tl c; n_start := n_start c; n_stop := n_stop c; n_copy := n_copy c;
+      upd_ctx (fun c => {| n_tl := n_tl c; n_start := n_start c; n_stop := n_stop c; n_copy := n_copy c; n_stop0 := n_stop0 c;
                           c_tl := c_tl c; c_start := c_start c; c_stop := true; c_copy := c_copy c;
-                          c_bank := c_bank c |})
+                          c_bank := c_bank c; h_tl := h_tl c |})
         {| opened_ctrl := opened_ctrl s; opened_strm := opened_strm s; ctxt := ctxt s;
            stream_enabled := stream_enabled s; tl_locked := tl_locked s; acquiring := false; loop_running := loop_running s;
-           tl_copy := tl_copy s; bank := bank s |}
+           tl_copy := tl_copy s; bank := bank s; tl_feat := tl_feat s |}
   | LoopStart => {| opened_ctrl := opened_ctrl s; opened_strm := opened_strm s; ctxt := ctxt s;
                    stream_enabled := stream_enabled s; tl_locked := tl_locked s; acquiring := acquiring s; loop_running := true;
-                   tl_copy := tl_copy s; bank := bank s |}
+                   tl_copy := tl_copy s; bank := bank s; tl_feat := tl_feat s |}
   | LoopStop => {| opened_ctrl := opened_ctrl s; opened_strm := opened_strm s; ctxt := ctxt s;
                   stream_enabled := stream_enabled s; tl_locked := tl_locked s; acquiring := acquiring s; loop_running := false;
-                  tl_copy := tl_copy s; bank := bank s |}
+                  tl_copy := tl_copy s; bank := bank s; tl_feat := tl_feat s |}
   | GenApiRead =>
       (* IntReg::value without a cached value: ctrl.read, then the bytes read are cached *)
-      upd_ctx (fun c => {| n_tl := n_tl c; n_start := n_start c; n_stop := n_stop c; n_copy := n_copy c;
+      upd_ctx (fun c => {| n_tl := n_tl c; n_start := n_start c; n_stop := n_stop c; n_copy := n_copy c; n_stop0 := n_stop0 c;
                           c_tl := Some (tl_locked s); c_start := c_start c; c_stop := c_stop c; c_copy := c_copy c;
-                          c_bank := c_bank c |}) s
+                          c_bank := c_bank c; h_tl := h_tl c |}) s
   | BankRead k =>
       (* RegisterBase::read_and_cache at address base + 4 * k: ctrl.read, then
          cx.cache_data(nid, address, length, buf): the block of THIS slot is stored, the blocks of the
          other slots stay as they are *)
-      upd_ctx (fun c => {| n_tl := n_tl c; n_start := n_start c; n_stop := n_stop c; n_copy := n_copy c;
+      upd_ctx (fun c => {| n_tl := n_tl c; n_start := n_start c; n_stop := n_stop c; n_copy := n_copy c; n_stop0 := n_stop0 c;
                           c_tl := c_tl c; c_start := c_start c; c_stop := c_stop c; c_copy := c_copy c;
-                          c_bank := fun j => if j =? k then Some (bank s k) else c_bank c j |}) s
+                          c_bank := fun j => if j =? k then Some (bank s k) else c_bank c j; h_tl := h_tl c |}) s
   | BankPoke k v =>
       (* the device changes its own memory; the host is not involved *)
       {| opened_ctrl := opened_ctrl s; opened_strm := opened_strm s; ctxt := ctxt s;
          stream_enabled := stream_enabled s; tl_locked := tl_locked s; acquiring := acquiring s; loop_running := loop_running s;
-         tl_copy := tl_copy s; bank := fun j => if j =? k then v else bank s j |}
-  | LoadCtxt t a p y =>
-      (* Ctxt::from_xml: a new context, nothing cached *)
-      {| opened_ctrl := opened_ctrl s; opened_strm := opened_strm s; ctxt := Some {| n_tl := t; n_start := a; n_stop := p; n_copy := y;
+         tl_copy := tl_copy s; bank := fun j => if j =? k then v else bank s j; tl_feat := tl_feat s |}
+  | LoadCtxt t a p y h z =>
+      (* Ctxt::from_xml: a new context, nothing cached; a host-side TLParamsLocked starts at its <Value> 0 *)
+      {| opened_ctrl := opened_ctrl s; opened_strm := opened_strm s; ctxt := Some {| n_tl := t; n_start := a; n_stop := p; n_copy := y; n_stop0 := z;
                       c_tl := None; c_start := false; c_stop := false; c_copy := false;
-                      c_bank := fun _ => None |};
+                      c_bank := fun _ => None; h_tl := if h then Some false else None |};
          stream_enabled := stream_enabled s; tl_locked := tl_locked s; acquiring := acquiring s; loop_running := loop_running s;
-         tl_copy := tl_copy s; bank := bank s |}
+         tl_copy := tl_copy s; bank := bank s; tl_feat := tl_feat s |}
   | ClearCache =>
-      (* DefaultCacheStore::clear: self.store.clear() -- the blocks of every node are dropped *)
-      upd_ctx (fun c => {| n_tl := n_tl c; n_start := n_start c; n_stop := n_stop c; n_copy := n_copy c;
+      (* DefaultCacheStore::clear: self.store.clear() -- the blocks of every node are dropped; the value
+         store (host-side variables) is not a cache and stays *)
+      upd_ctx (fun c => {| n_tl := n_tl c; n_start := n_start c; n_stop := n_stop c; n_copy := n_copy c; n_stop0 := n_stop0 c;
                           c_tl := None; c_start := false; c_stop := false; c_copy := false;
-                          c_bank := fun _ => None |}) s
+                          c_bank := fun _ => None; h_tl := h_tl c |}) s
   end.
 
 (* ---- the monad -------------------------------------------------------- *)
@@ -252,14 +281,16 @@ Definition cam_open : M Z :=
 (* The description served by the device: (parses, TLParamsLocked ok, AcquisitionStart ok,
    AcquisitionStop ok, TLParamsLocked declared with a <pValueCopy>).  Every description that parses
    also defines the register bank and its selector. *)
-Record xmlv := { x_parses : bool; x_tl : bool; x_start : bool; x_stop : bool; x_copy : bool }.
+Record xmlv := { x_parses : bool; x_tl : bool; x_start : bool; x_stop : bool; x_copy : bool;
+                 x_host : bool;      (* TLParamsLocked is a host-side variable (then no <pValueCopy>) *)
+                 x_stop0 : bool      (* AcquisitionStop's CommandValue is 0 *) }.
 
 (* pub fn load_context(&mut self):
      let xml = self.ctrl.genapi()?; self.ctxt = Some(Ctxt::from_xml(&xml)?); Ok(xml) *)
 Definition cam_load (x : xmlv) : M Z :=
   do_op GenApiFetch ;;;
   need (x_parses x) E_CTRL_INVALID_DATA ;;;
-  emit (LoadCtxt (x_tl x) (x_start x) (x_stop x) (x_copy x)) ;;;
+  emit (LoadCtxt (x_tl x) (x_start x) (x_stop x) (x_copy x) (x_host x) (x_stop0 x)) ;;;
   ret (-1).
 
 (* pub fn start_streaming(&mut self, cap: usize) *)
@@ -270,8 +301,12 @@ Definition cam_start (fx : bool) (cap : Z) : M Z :=
   do_op EnableStreaming ;;;                             (* self.ctrl.enable_streaming()?; *)
   c <- params_ctxt ;;                                   (* let mut ctxt = self.params_ctxt()?; *)
   need (n_tl c) E_INVALID_XML ;;;                       (* expect_node!(&ctxt, "TLParamsLocked", as_integer) *)
-  do_op (SetTLParamsLocked true) ;;;                    (*   .set_value(&mut ctxt, 1)?;   PValue::set_value: self.p_value.set_value(..)?; *)
-  (if n_copy c then do_op (CopyTL true) else ret tt) ;;; (*     for nid in self.p_value_copies() { nid.set_value(..)?; } *)
+  match h_tl c with                                     (*   .set_value(&mut ctxt, 1)?; *)
+  | Some _ => emit (HostTL true)                        (*     ValueKind::Value: the slot of the value store is updated *)
+  | None =>
+      do_op (SetTLParamsLocked true) ;;;                (*     PValue::set_value: self.p_value.set_value(..)?; *)
+      (if n_copy c then do_op (CopyTL true) else ret tt) (*     for nid in self.p_value_copies() { nid.set_value(..)?; } *)
+  end ;;;
   need (n_start c) E_INVALID_XML ;;;                    (* expect_node!(&ctxt, "AcquisitionStart", as_command) *)
   do_op AcqStart ;;;                                    (*   .execute(&mut ctxt)?; *)
   (if cap =? 0 then panic else ret tt) ;;;              (* channel(cap, DEFAULT_BUFFER_CAP) *)
@@ -287,8 +322,12 @@ Definition cam_stop : M Z :=
   need (n_stop c) E_INVALID_XML ;;;                     (* expect_node!(&ctxt, "AcquisitionStop", as_command) *)
   do_op AcqStop ;;;                                     (*   .execute(&mut ctxt)?; *)
   need (n_tl c) E_INVALID_XML ;;;                       (* expect_node!(&ctxt, "TLParamsLocked", as_integer) *)
-  do_op (SetTLParamsLocked false) ;;;                   (*   .set_value(&mut ctxt, 0)?;   PValue::set_value: self.p_value.set_value(..)?; *)
-  (if n_copy c then do_op (CopyTL false) else ret tt) ;;; (*    for nid in self.p_value_copies() { nid.set_value(..)?; } *)
+  match h_tl c with                                     (*   .set_value(&mut ctxt, 0)?; *)
+  | Some _ => emit (HostTL false)                       (*     ValueKind::Value: the slot of the value store is updated *)
+  | None =>
+      do_op (SetTLParamsLocked false) ;;;               (*     PValue::set_value: self.p_value.set_value(..)?; *)
+      (if n_copy c then do_op (CopyTL false) else ret tt) (*    for nid in self.p_value_copies() { nid.set_value(..)?; } *)
+  end ;;;
   do_op DisableStreaming ;;;                            (* self.ctrl.disable_streaming()?; *)
   ret (-1).
 
@@ -306,9 +345,13 @@ Definition cam_close : M Z :=
 Definition cam_params : M Z :=
   c <- params_ctxt ;;
   need (n_tl c) E_INVALID_XML ;;;
-  match c_tl c with
-  | Some b => ret (Z.b2z b)
-  | None => do_op GenApiRead ;;; s <- get ;; ret (Z.b2z (tl_locked s))
+  match h_tl c with
+  | Some b => ret (Z.b2z b)               (* ValueKind::Value: the slot of the value store *)
+  | None =>
+      match c_tl c with
+      | Some b => ret (Z.b2z b)
+      | None => do_op GenApiRead ;;; s <- get ;; ret (Z.b2z (tl_locked s))
+      end
   end.
 
 (* "bank access": params_ctxt()?, BankSelector.set_value(k) (a value of the context's value store: no
@@ -328,9 +371,15 @@ Definition cam_poke (k v : Z) : M Z :=
   emit (BankPoke k v) ;;;
   ret (-1).
 
+(* "params write": params_ctxt()?, UserVar.set_value(v): a further variable of the context (value
+   store); no device access, nothing else reads it *)
+Definition cam_user (v : Z) : M Z :=
+  c <- params_ctxt ;;
+  ret (-1).
+
 Inductive call :=
 | COpen | CLoad (x : xmlv) | CStart (cap : Z) | CStop | CClose | CParams
-| CBank (k : Z) | CPoke (k v : Z).
+| CBank (k : Z) | CPoke (k v : Z) | CUser (v : Z).
 
 Definition call_body (fx : bool) (c : call) : M Z :=
   match c with
@@ -342,6 +391,7 @@ Definition call_body (fx : bool) (c : call) : M Z :=
   | CParams => cam_params
   | CBank k => cam_bank k
   | CPoke k v => cam_poke k v
+  | CUser v => cam_user v
   end.
 
 (* result of one call *)
@@ -376,15 +426,18 @@ Definition plan_of (l : list (nat * nat * Z)) : nat -> nat -> option Z :=
              end.
 
 (* ---- canonical printing for the correspondence (format of rust/h_camera) ---- *)
-Definition eff_code (e : effect) : list Z :=
+(* [z0]: the CommandValue of AcquisitionStop in the description the context was built from is 0; the
+   code of the two command writes carries the value written (7 / 19: 1 / 0 to the AcquisitionStart
+   register, 8 / 18: 1 / 0 to the AcquisitionStop register) *)
+Definition eff_code (z0 : bool) (e : effect) : list Z :=
   match e with
   | CtrlOpen => [1] | StrmOpen => [2] | GenApiFetch => [3] | EnableStreaming => [4]
   | SetTLParamsLocked true => [5] | SetTLParamsLocked false => [6]
-  | AcqStart => [7] | AcqStop => [8] | LoopStart => [9] | LoopStop => [10]
+  | AcqStart => [7] | AcqStop => [if z0 then 18 else 8] | LoopStart => [9] | LoopStop => [10]
   | DisableStreaming => [11] | CtrlClose => [12] | StrmClose => [13] | GenApiRead => [15]
   | CopyTL true => [16] | CopyTL false => [17]
   | BankRead k => [30 + k]
-  | LoadCtxt _ _ _ _ | ClearCache => []     (* host side: not an event of the fakes *)
+  | LoadCtxt _ _ _ _ _ _ | ClearCache | HostTL _ => []   (* host side: not an event of the fakes *)
   | BankPoke _ _ => []                      (* environment: not an operation of the camera *)
   end.
 
@@ -404,10 +457,12 @@ Definition flags_of (s : cam) : Z :=
   + 256 * Z.b2z (tl_locked s) + 512 * Z.b2z (acquiring s) + 1024 * Z.b2z (tl_copy s).
 
 Definition show_call (r : callres) : list Z :=
-  let evs := concat (map eff_code (r_effs r)) in
+  (* the description in force during the call: a call that executes a command does not load one *)
+  let z0 := match ctxt (r_cam r) with Some c => n_stop0 c | None => false end in
+  let evs := concat (map (eff_code z0) (r_effs r)) in
   [match r_res r with Ok _ => 0 | Err e => e | Panic => 2 end;
-   match r_failed r with Some (e, _) => hd 0 (eff_code e) | None => 0 end;
-   zlen (r_atts r)] ++ concat (map eff_code (r_atts r)) ++ [zlen evs] ++ evs ++
+   match r_failed r with Some (e, _) => hd 0 (eff_code z0 e) | None => 0 end;
+   zlen (r_atts r)] ++ concat (map (eff_code z0) (r_atts r)) ++ [zlen evs] ++ evs ++
   [match r_res r with Ok v => v | _ => -1 end; flags_of (r_cam r)].
 
 Definition call_of_Z (z : Z) : call :=
@@ -415,12 +470,18 @@ Definition call_of_Z (z : Z) : call :=
   else if z =? 5 then CParams
   else if (10 <=? z) && (z <=? 19) then CStart (z - 10)
   else if (60 <=? z) && (z <=? 63) then CBank (z - 60)
-  else if (1000 <=? z) && (z <? 2024) then CPoke ((z - 1000) / 256) ((z - 1000) mod 256)
-  else if z =? 48 then    (* the conforming description with TLParamsLocked = <pValue> + <pValueCopy> *)
-       CLoad {| x_parses := true; x_tl := true; x_start := true; x_stop := true; x_copy := true |}
+  else if (70 <=? z) && (z <=? 79) then CUser (z - 70)
+  else if (1000 <=? z) && (z <? 2536) then CPoke ((z - 1000) / 256) ((z - 1000) mod 256)
+  else if (48 <=? z) && (z <=? 51) then
+       (* conforming descriptions: 48 TLParamsLocked = <pValue> + <pValueCopy>; 49 the two commands carry
+          <pIsAvailable> backed by device registers (execute does not consult it: as the plain one);
+          50 TLParamsLocked is a host-side variable and AcquisitionStop has CommandValue 0;
+          51 AcquisitionStop has CommandValue 0 *)
+       CLoad {| x_parses := true; x_tl := true; x_start := true; x_stop := true; x_copy := z =? 48;
+                x_host := z =? 50; x_stop0 := (z =? 50) || (z =? 51) |}
   else let v := z - 20 in
        CLoad {| x_parses := v <? 27; x_tl := v mod 3 =? 0; x_start := (v / 3) mod 3 =? 0;
-                x_stop := (v / 9) mod 3 =? 0; x_copy := false |}.
+                x_stop := (v / 9) mod 3 =? 0; x_copy := false; x_host := false; x_stop0 := false |}.
 
 Fixpoint triples_of (l : list Z) : list (nat * nat * Z) :=
   match l with
@@ -442,8 +503,17 @@ Definition good_call (c : call) : Prop :=
   | _ => True
   end.
 
+(* what a params access of TLParamsLocked reads: the host-side variable where the description keeps
+   it there, else the device register *)
+Definition tl_value (s : cam) : bool :=
+  match ctxt s with
+  | Some c => match h_tl c with Some b => b | None => tl_locked s end
+  | None => tl_locked s
+  end.
+
+(* [tl_feat s = false]: TLParamsLocked, as last written (register or host-side variable), is 0 *)
 Definition clean (s : cam) : Prop :=
-  loop_running s = false /\ tl_locked s = false /\ stream_enabled s = false /\
+  loop_running s = false /\ tl_feat s = false /\ stream_enabled s = false /\
   acquiring s = false /\ opened_ctrl s = false /\ opened_strm s = false /\
   cache_nonempty s = false /\ (forall k, bank_cache s k = None).
 
@@ -454,7 +524,7 @@ Definition first_fail (plc : nat -> option Z) (j : nat) (cls : Z) : Prop :=
 (* the fallible operations among the effects (device / stream accesses; LoadCtxt and ClearCache are
    host-side steps, BankPoke is the environment) *)
 Definition is_access (e : effect) : bool :=
-  match e with LoadCtxt _ _ _ _ | ClearCache | BankPoke _ _ => false | _ => true end.
+  match e with LoadCtxt _ _ _ _ _ _ | ClearCache | BankPoke _ _ | HostTL _ => false | _ => true end.
 
 (* One session with every single failure point, for the correspondence: the failure-free run, then
    for every call i and every operation j < (operations the failure-free run of call i attempts) the
